@@ -77,13 +77,13 @@ inductive J where
   | obj (l : List (String × J))
   deriving Repr, Inhabited
 
-def isDigits (s : String) : Bool := !s.isEmpty && s.toList.all Char.isDigit
+def isDigits (s : String) : Bool := !s.toList.isEmpty && s.toList.all Char.isDigit
 
 /-- uintN: a non-negative integral number or its decimal string; null = default -/
 def pUint (bits : Nat) : J → Option Nat
   | .null => some 0
   | .num n => if 0 ≤ n ∧ n < 2^bits then some n.toNat else none
-  | .str s => if isDigits s then (let n := s.toNat!; if n < 2^bits then some n else none) else none
+  | .str s => if isDigits s then (match s.toNat? with | some n => if n < 2^bits then some n else none | none => none) else none
   | _ => none
 
 def pBool : J → Option Bool
